@@ -149,7 +149,17 @@ def make_visitor(rules: dict, strict: bool):
                 if isinstance(new, TL):
                     return dataclasses.replace(new, v=new.v + 1)
                 return dataclasses.replace(new, tag=new.tag + 1)
-            return rw
+
+            def rw_helper(self, node):
+                # the documented way for subclasses: ask the helper for the changed child fields, add own changes to that
+                # dictionary and hand it to dataclasses.replace
+                changes = self._transform_children(node)
+                if isinstance(node, TL):
+                    changes["v"] = node.v + 1
+                else:
+                    changes["tag"] = node.tag + 1
+                return dataclasses.replace(node, **changes)
+            return rw_helper if cname in ("TS", "TQ", "TW") else rw
         if rule == "replace":
             return lambda self, node: TL(99)
         if rule == "copy":
